@@ -382,9 +382,17 @@ func (p *Prog) DefsOf(f *Func, o types.Object) []VarDef {
 		for _, l := range g.Lits {
 			walkBody(l, func(n ast.Node) bool {
 				if as, ok := n.(*ast.AssignStmt); ok {
-					for _, lh := range as.Lhs {
+					for i, lh := range as.Lhs {
 						if id, ok := unparen(lh).(*ast.Ident); ok && p.ObjOf(id) == o && as.Tok != token.DEFINE {
-							out = append(out, VarDef{Node: as})
+							d := VarDef{Node: as}
+							if as.Tok == token.ASSIGN {
+								if len(as.Rhs) == len(as.Lhs) {
+									d.Rhs = as.Rhs[i]
+								} else if len(as.Rhs) == 1 {
+									d.Rhs, d.Index = as.Rhs[0], i
+								}
+							}
+							out = append(out, d)
 						}
 					}
 				}
